@@ -312,6 +312,10 @@ func scenarioStart(c *hlib.RunCtx) *hlib.Violation {
 			s.Probe("inherited-upload-variable")
 		}
 		st := &starter{cfg: Config{ReportCrashes: t.Bool(1, 2), Upload: t.Bool(2, 3), TelemetryDir: tele, UploadURL: "http://telemetry.sim/upload"}, marker: marker, tainted: marker != ""}
+		if t.Bool(1, 5) {
+			// the documented way to try out a later upload: the token's age has nothing to do with it
+			st.cfg.UploadStartTime = start.Add(time.Duration(1+t.Draw(30)) * 24 * time.Hour)
+		}
 		st.viaMaybe = t.Bool(1, 3)
 		info[p] = st
 		desc = append(desc, fmt.Sprintf("app%d marker=%q crash=%v upload=%v maybechild=%v", i, marker, st.cfg.ReportCrashes, st.cfg.Upload, st.viaMaybe))
